@@ -67,7 +67,7 @@ def gen_cases(r, scale):
     cases = []
     # translator validation of the generated segment arithmetic on a boundary grid
     grid = sorted(set([0, 1, 2, 63, 64, 65, 127, 128, 191, 192, 193, 319, 320, 321, 447, 448, 449, 703, 704, 705, 1000, 4095, 4096, 65535, 65536]
-                      + [2 ** k + d for k in range(6, 62) for d in (-1, 0, 1)] + [64 * m for m in range(1, 200)]))
+                      + [2 ** k + d for k in range(6, 50) for d in (-1, 0, 1)] + [64 * m for m in range(1, 200)]))
     for i in range(0, len(grid), 40):
         cases.append('X 0 | ' + ' | '.join('SEG %d' % n for n in grid[i:i + 40]))
     for _ in range(60 * scale): cases.append(gen_case(r, 'small'))
